@@ -1,3 +1,4 @@
 import Cgm.Lemmas.AuditCmd
 import Cgm.E2E.C06
+import Cgm.E2E.C06i
 #audit_namespace Cg.E2E.C06
